@@ -283,3 +283,30 @@ Example revert_decode_panics_window :
   revert_decode_panics F NOutOfGas panic_selector 4 = false /\
   revert_decode_panics reference_facts NRevert panic_selector 4 = false.
 Proof. vm_compute. repeat split; reflexivity. Qed.
+
+(* ------------------------------------------------------------------ Oracle pair strings *)
+
+(** Seeded change "pair regex unanchored": a per-side pattern without `$` lets "unibi:uusd\x00" through the pair
+    validation; ExchangeRates.Get then panics in the collections string-key encoder *)
+Lemma no_panic_refuted_unanchored_pair_validation :
+  exists k inp, input_wf inp = true /\
+    r_out (call (with_pair_validation reference_facts false) POracle k 0 1000000 inp) = Panic.
+Proof. exists KStatic, oracle_query_nul_call. vm_compute. split; reflexivity. Qed.
+
+Example nonvacuous_nul_pair_fails_closed :
+  let r := call reference_facts POracle KStatic 0 1000000 oracle_query_nul_call in
+  r_out r = Err /\ r_left r = 0 /\ r_st r = 0.
+Proof. vm_compute. repeat split; reflexivity. Qed.
+
+(** what the unanchored validation lets through, and what it still refuses *)
+Example lax_pair_window :
+  let u := unibi in let q := [117; 117; 115; 100] in
+  lax_pair (u ++ [58] ++ q ++ [0]) = true /\ valid_pair (u ++ [58] ++ q ++ [0]) = false /\
+  lax_pair ([117; 110; 0; 105] ++ [58] ++ q) = true /\
+  lax_pair (u ++ [58] ++ q ++ [33; 255]) = true /\
+  lax_pair ([0] ++ u ++ [58] ++ q) = false /\
+  lax_pair ([117; 0] ++ [58] ++ q) = false /\
+  lax_pair (u ++ q) = false /\
+  lax_pair (u ++ [58] ++ q ++ [58; 0]) = false /\
+  valid_pair (u ++ [58] ++ q) = true.
+Proof. vm_compute. repeat split; reflexivity. Qed.
